@@ -293,10 +293,16 @@ class Rewriter(ast.NodeTransformer):
     def _lam(self, target, body):
         # free names of the element / filter are bound as defaults (evaluated where the comprehension stands): code run
         # through exec() with separate globals and locals would otherwise not see the function's local variables
-        free = sorted({n.id for n in ast.walk(body) if isinstance(n, ast.Name) and isinstance(n.ctx, ast.Load) and n.id != target.id
+        tnames = [n.id for n in ast.walk(target) if isinstance(n, ast.Name)]
+        free = sorted({n.id for n in ast.walk(body) if isinstance(n, ast.Name) and isinstance(n.ctx, ast.Load) and n.id not in tnames
                        and not n.id.startswith('__')})
-        return ast.Lambda(args=ast.arguments(posonlyargs=[], args=[ast.arg(arg=target.id)] + [ast.arg(arg=n) for n in free], kwonlyargs=[], kw_defaults=[],
-                                             defaults=[ast.Name(id=n, ctx=ast.Load()) for n in free]), body=body)
+        mk = lambda first: ast.arguments(posonlyargs=[], args=[ast.arg(arg=a) for a in first] + [ast.arg(arg=n) for n in free], kwonlyargs=[], kw_defaults=[],
+                                         defaults=[ast.Name(id=n, ctx=ast.Load()) for n in free])
+        if isinstance(target, ast.Name):
+            return ast.Lambda(args=mk([target.id]), body=body)
+        # tuple target (for key, value in ...): one argument, unpacked by an inner lambda
+        inner = ast.Lambda(args=ast.arguments(posonlyargs=[], args=[ast.arg(arg=a) for a in tnames], kwonlyargs=[], kw_defaults=[], defaults=[]), body=body)
+        return ast.Lambda(args=mk(['__item']), body=ast.Call(func=inner, args=[ast.Starred(value=ast.Name(id='__item', ctx=ast.Load()), ctx=ast.Load())], keywords=[]))
 
     def _cond(self, gen):
         if not gen.ifs:
@@ -305,7 +311,7 @@ class Rewriter(ast.NodeTransformer):
 
     def visit_ListComp(self, node):
         self.generic_visit(node)
-        if len(node.generators) != 1 or not isinstance(node.generators[0].target, ast.Name):
+        if len(node.generators) != 1 or not (isinstance(node.generators[0].target, ast.Name) or (isinstance(node.generators[0].target, ast.Tuple) and all(isinstance(e_, ast.Name) for e_ in node.generators[0].target.elts))):
             return node
         g = node.generators[0]
         return ast.Call(func=ast.Name(id='__lc__', ctx=ast.Load()), args=[self._lam(g.target, node.elt), self._lam(g.target, self._cond(g)), g.iter], keywords=[])
